@@ -6,12 +6,12 @@
 (* and property objects passed in, mutations through objects and through   *)
 (* the user's own references, encodes, decodes, failed decodes, toggles.   *)
 (***************************************************************************)
-EXTENDS Api, TLC
+EXTENDS Api, TLC, Json
 
 CONSTANTS MaxObjs, MaxUser, MaxOps
 
-VARIABLES h, lg, last, nops
-avars == << h, lg, last, nops >>
+VARIABLES h, lg, last, nops, hist       \* hist: the calls so far (observation only; hidden by VIEW)
+avars == << h, lg, last, nops, hist >>
 
 I(n) == MkIntV(IntOf(n))
 Classes == { "Queue.Declare", "Basic.Ack", "ContentHeader" }
@@ -19,10 +19,13 @@ Key == <<120>>
 Entry(n) == MkTable(<< [k |-> Key, v |-> I(n)] >>)
 
 Tick == nops' = nops + 1
-AInit == h = HeapInit /\ lg = FALSE /\ last = [k |-> "none"] /\ nops = 0
+Log(op) == hist' = Append(hist, op)
+AInit == h = HeapInit /\ lg = FALSE /\ last = [k |-> "none"] /\ nops = 0 /\ hist = <<>>
 
 NewDict(c) == /\ Len(h.ucell) < MaxUser /\ h' = HNewUser(h, "table", c) /\ Tick /\ UNCHANGED << lg, last >>
+              /\ Log([op |-> "newdict", n |-> Len(c.e)])
 NewProps == /\ Len(h.ucell) < MaxUser /\ h' = HNewUser(h, "props", DefaultProps) /\ Tick /\ UNCHANGED << lg, last >>
+            /\ Log([op |-> "newprops"])
 
 UserOfKind(kind) == { j \in 1..Len(h.ucell) : h.cells[h.ucell[j]].kind = kind }
 Construct(cls, uref) ==
@@ -32,25 +35,25 @@ Construct(cls, uref) ==
                                           /\ h' = HConstructMethod(h, cls, [x \in {"_"} |-> NoneV], uref)
        ELSE uref = 0 /\ h' = HConstructMethod(h, cls, [x \in {"_"} |-> NoneV], 0)
     /\ last' = [k |-> "constructed", i |-> Len(h.heap) + 1, default |-> (uref = 0)]
-    /\ Tick /\ UNCHANGED lg
+    /\ Tick /\ UNCHANGED lg /\ Log([op |-> "construct", cls |-> cls, u |-> uref])
 
 MutateVia(c, n) ==
-    /\ h' = HMutateCell(h, c, Key, "priority", I(n))
+    /\ h' = HMutateCell(h, c, Key, "priority", I(IF h.cells[c].kind = "props" THEN n % 256 ELSE n))
     /\ last' = [k |-> "mutated"]
     /\ Tick /\ UNCHANGED lg
-MutateObj(i, n) == i \in 1..Len(h.heap) /\ h.heap[i].cell # 0 /\ MutateVia(h.heap[i].cell, n)
-MutateUser(j, n) == j \in 1..Len(h.ucell) /\ MutateVia(h.ucell[j], n)
+MutateObj(i, n) == i \in 1..Len(h.heap) /\ h.heap[i].cell # 0 /\ MutateVia(h.heap[i].cell, n) /\ Log([op |-> "mutobj", i |-> i, n |-> n])
+MutateUser(j, n) == j \in 1..Len(h.ucell) /\ MutateVia(h.ucell[j], n) /\ Log([op |-> "mutuser", j |-> j, n |-> n])
 
 DoMarshal(i) == /\ i \in 1..Len(h.heap)
                 /\ last' = [k |-> "bytes", r |-> Marshal(lg, ViewOf(h, h.heap[i]), 1), of |-> i]
-                /\ Tick /\ UNCHANGED << h, lg >>
+                /\ Tick /\ UNCHANGED << h, lg >> /\ Log([op |-> "marshal", i |-> i])
 DoUnmarshal == /\ last.k = "bytes" /\ last.r.ok /\ Len(h.heap) < MaxObjs
                /\ LET r == Unmarshal(last.r.b) IN h' = HDecoded(h, r.f)
-               /\ Tick /\ UNCHANGED << lg, last >>
+               /\ Tick /\ UNCHANGED << lg, last >> /\ Log([op |-> "unmarshal"])
 DoUnmarshalBad == /\ last.k = "bytes" /\ last.r.ok
                   /\ Unmarshal(Take(last.r.b, Len(last.r.b) - 1)).k = "incomplete"      \* a failed decode ...
-                  /\ Tick /\ UNCHANGED << h, lg, last >>                                     \* ... changes nothing
-Toggle == lg' = ~lg /\ Tick /\ UNCHANGED << h, last >>
+                  /\ Tick /\ UNCHANGED << h, lg, last >> /\ Log([op |-> "unmarshalbad"])        \* ... changes nothing
+Toggle == lg' = ~lg /\ Tick /\ UNCHANGED << h, last >> /\ Log([op |-> "toggle", on |-> ~lg])
 
 ANext == \/ \E c \in { EmptyTable, Entry(7) } : NewDict(c)
          \/ NewProps
@@ -61,6 +64,8 @@ ANext == \/ \E c \in { EmptyTable, Entry(7) } : NewDict(c)
          \/ DoUnmarshal \/ DoUnmarshalBad \/ Toggle
 ASpec == AInit /\ [][ANext]_avars
 Bound == nops <= MaxOps
+\* S2C: every history of exactly MaxOps calls (generator config, -workers 1, no VIEW)
+EmitHistory == nops < MaxOps \/ PrintT(<< "S2C", ToJson([hist |-> hist]) >>)
 View == << h, lg, last >>
 
 \* ---- properties ----
